@@ -225,12 +225,14 @@ def settlement (t : Step) : Viol :=
      | _ => [])
 
 /-- C02: a consumer is debited at batch start by exactly the fees of the requests issued -/
+/- (requests issued in this step = records that the previous state did not hold: a request stamped earlier in the same
+   block by a module-service call has the same request height) -/
 def batchDebit (t : Step) : Viol :=
   match t.op with
   | .endblock _ =>
     t.post.ctxs.flatMap (fun p =>
       let c := p.1; let x := p.2
-      let issued := t.post.reqs.filter (fun q => q.1.ctx = c ∧ q.1.batch = x.batch ∧ q.2.reqH = t.pre.height)
+      let issued := t.post.reqs.filter (fun q => q.1.ctx = c ∧ q.1.batch = x.batch ∧ q.2.reqH = t.pre.height ∧ (Map.get t.pre.reqs q.1).isNone)
       if issued.isEmpty then [] else
         let total := (issued.map (·.2.fee)).sum
         chk (total == 0 || t.effs.contains (.transfer x.cons t.pre.cfg.escrow total)) s!"batch of {issued.length} requests issued without a single debit of their total {total}")
@@ -240,7 +242,7 @@ def batchDebit (t : Step) : Viol :=
     ++ (paidInto t.pre.bank.bal t.pre.cfg.deposit t.pre.cfg.escrow t.effs).flatMap (fun an =>
           chk (t.post.ctxs.any (fun p =>
             p.2.cons == an.1 &&
-            ((t.post.reqs.filter (fun q => q.1.ctx = p.1 ∧ q.1.batch = p.2.batch ∧ q.2.reqH = t.pre.height)).map (·.2.fee)).sum == an.2))
+            ((t.post.reqs.filter (fun q => q.1.ctx = p.1 ∧ q.1.batch = p.2.batch ∧ q.2.reqH = t.pre.height ∧ (Map.get t.pre.reqs q.1).isNone)).map (·.2.fee)).sum == an.2))
             s!"{an.1} paid {an.2} into the escrow although no batch with that total was issued for it in this block")
   | _ => []
 
